@@ -79,7 +79,7 @@ def strip_raw(l):
 def run(tier, seed, replay=None):
     rng = vlib.Rng(seed)
     pr = proofcheck.prove(PROP)
-    nscripts, maxops, maxthr = (250, 50, 4) if tier == 'quick' else (4000, 300, 15)
+    nscripts, maxops, maxthr = (250, 50, 4) if tier == "quick" else (2500, 200, 15)
     if replay:
         scripts = [(os.path.basename(replay), [l.rstrip('\n') for l in open(replay) if not l.startswith('#') and l.strip()])]
     else:
